@@ -202,6 +202,40 @@ def audit_props(pid, theorem_names, workdir):
     return ok, report, raw
 
 
+def coqchk(pid, timeout=3000):
+    """Independent re-check of Props/<pid>.vo and everything it depends on (thorough tier).
+    Returns (ok, report): ok iff coqchk succeeds and lists no axiom outside the allow-list, nothing
+    relying on type-in-type, unsafe fixpoints or assumed positivity."""
+    p = subprocess.run(["timeout", str(timeout), "coqchk", "-o", "-silent", "-Q", COQ, "ACV", f"ACV.Props.{pid}"],
+                       capture_output=True, text=True, cwd=COQ)
+    out = p.stdout + p.stderr
+    report = {"rc": p.returncode}
+    ok = p.returncode == 0
+    for key, label in (("axioms", "* Axioms:"), ("type_in_type", "* Constants/Inductives relying on type-in-type:"),
+                       ("unsafe_fix", "* Constants/Inductives relying on unsafe (co)fixpoints:"),
+                       ("assumed_positive", "* Inductives whose positivity is assumed:")):
+        i = out.find(label)
+        if i < 0:
+            report[key] = "?"
+            ok = False
+            continue
+        rest = out[i + len(label):]
+        j = rest.find("\n* ")
+        body = (rest if j < 0 else rest[:j]).strip()
+        items = [] if body == "<none>" else [x.strip() for x in body.split("\n") if x.strip()]
+        report[key] = items
+        if key == "axioms":
+            for ax in items:
+                name = ax.split(":")[0].strip()
+                if name not in ALLOWED_AXIOMS and name.split(".")[-1] not in ALLOWED_AXIOMS:
+                    ok = False
+        elif items:
+            ok = False
+    if not ok:
+        report["raw_tail"] = out[-1500:]
+    return ok, report
+
+
 def run_exec(ops, timeout=3600):
     """Run the implementation on a list of op dicts; returns list of result dicts."""
     inp = "\n".join(json.dumps(o, separators=(",", ":")) for o in ops) + "\n"
